@@ -1,8 +1,8 @@
-\* as core, and the Job may be refused by the queue controller before it starts
+\* two indexes, one fault which may be a Pod create refused for good (Invalid)
 SPECIFICATION Spec
 CONSTANTS
- N = 1
- MaxAtt = 2
+ N = 2
+ MaxAtt = 1
  Delay = 1
  Strategy = "AllSuccessful"
  PT = 2
@@ -10,9 +10,9 @@ CONSTANTS
  TTL = 2
  Forbid = FALSE
  Foreign = FALSE
- MaxTime = 4
+ MaxTime = 2
  MaxEvq = 2
- MaxFaults = 0
+ MaxFaults = 1
  MaxCrash = 0
  Fresh = TRUE
  KillDelays = {}
@@ -20,8 +20,8 @@ CONSTANTS
  UserDeletes = FALSE
  ExtDeletes = FALSE
  NodeDowns = FALSE
- Rejects = TRUE
- Holds = FALSE Invalids = FALSE
+ Rejects = FALSE
+ Holds = FALSE Invalids = TRUE
 INVARIANTS TypeOK C08_OneLive C09_NotLost C09_NoForeignAdopt C10_SuccOnly C10_FailOnly G_Kill G_Reaches G_Listed G_Deleted G_Foreign
 PROPERTIES C08_Order C08_Delay C08_Gates C09_Keep C10_NoLiveAtFinish C11_Monotone C12_DeleteJustified C12_ForceGate C12_KillSticky C13_Order C13_TTLNotEarly
 CHECK_DEADLOCK FALSE
